@@ -121,6 +121,12 @@ fn check_arity(case: &Value, obs: &mut Obs) -> Result<(), String> {
             ("or operand", json!({"or": [0, rule.clone()]})),
             ("literal-array element of some", json!({"some": [[rule.clone()], true]})),
             ("var default", json!({"var": ["no-such-key", rule.clone()]})),
+            ("bracket-less operand of !", json!({"!": rule.clone()})),
+            ("bracket-less operand of !!", json!({"!!": rule.clone()})),
+            ("bracket-less operand of log", json!({"log": rule.clone()})),
+            ("bracket-less operand of -", json!({"-": rule.clone()})),
+            ("operand of ! inside !", json!({"!": {"!": [rule.clone()]}})),
+            ("bracket-less operand of cat", json!({"cat": rule.clone()})),
         ] {
             if let Some(v) = run(&outer, &data, obs)? {
                 return Err(format!("an operation with a wrong operand count evaluated as {} did not fail: {} gave {}", what, outer, v));
